@@ -374,6 +374,41 @@ func init() {
 		}
 		return &SliceV{arr: ex.newObj(arr, nil), len: len(arr.es), cap: len(arr.es)}
 	})
+	vx("SchemaDiff", func(ex *Exec, fr *Frame, a []Value, s ssa.Instruction) Value {
+		sq, err1 := ex.P.schema("sqlite")
+		pg, err2 := ex.P.schema("postgres")
+		if err1 != nil || err2 != nil {
+			panic(ex.unsupported("schema: %v %v", err1, err2))
+		}
+		var diffs []string
+		for _, name := range sq.names {
+			a, b := sq.defs[name], pg.defs[name]
+			if b == nil {
+				diffs = append(diffs, "table "+name+" missing in postgres")
+				continue
+			}
+			for _, c := range a.cols {
+				j, ok := b.idx[c.name]
+				if !ok {
+					diffs = append(diffs, name+"."+c.name+" missing in postgres")
+					continue
+				}
+				d := b.cols[j]
+				if c.typ != d.typ || c.unique != d.unique || c.hasDef != d.hasDef || c.def != d.def {
+					diffs = append(diffs, fmt.Sprintf("%s.%s declared differently (%s/%v vs %s/%v)", name, c.name, c.typ, c.unique, d.typ, d.unique))
+				}
+				if c.typ == "INTEGER" && c.width != d.width && !c.autoinc {
+					diffs = append(diffs, fmt.Sprintf("%s.%s is %d bits in sqlite and %d bits in postgres", name, c.name, c.width, d.width))
+				}
+			}
+			for _, d := range b.cols {
+				if _, ok := a.idx[d.name]; !ok {
+					diffs = append(diffs, name+"."+d.name+" missing in sqlite")
+				}
+			}
+		}
+		return ex.tt.Str(strings.Join(diffs, "; "))
+	})
 	vx("HasPrefix", func(ex *Exec, fr *Frame, a []Value, s ssa.Instruction) Value {
 		return ex.tt.PrefixOf(a[1].(*Term), a[0].(*Term))
 	})
